@@ -40,6 +40,7 @@ import (
 	"io"
 	"net"
 	"net/netip"
+	"os"
 	"strconv"
 	"testing"
 	"time"
@@ -829,6 +830,12 @@ func s5Run(rt *rapid.T, t *testing.T) {
 		}{p.API, p.Dest.Class, s5Short(p.Dest.Addr), p.Auth, p.Method, p.Fault, p.CtxKind, p.Timeout, p.Delay}),
 			"events": tr.Log[:min(len(tr.Log), 40)]}
 	})
+	if os.Getenv("VERIF_DEBUG_TRACE") != "" {
+		fmt.Printf("TRACE %x\n", tr.Hash())
+		for _, l := range tr.Log {
+			fmt.Printf("  | %s\n", l)
+		}
+	}
 	if harness != "" {
 		vs.Harnessf(rt, "%s", harness)
 	}
@@ -848,7 +855,9 @@ func s5Judge(p *s5Plan, srv *s5Server, res *s5Result, tr *vs.Trace, slack time.D
 		return nil // the dial task was never scheduled to completion (reported above)
 	}
 	ok := res.err == nil
-	tr.Ev("result ok=%v ctxerr=%v cut=%v full=%v", ok, res.ctxErrAt != nil, res.cutAt, res.fullAt)
+	// (at the deadline instant itself ctx.Err() may or may not be set yet: the context's
+	// timer and the connection's deadline timer fire in unspecified order)
+	tr.Ev("result ok=%v ctxdone=%v cut=%v full=%v", ok, res.ctxErrAt != nil || (p.CtxKind == 2 && res.at >= p.Timeout), res.cutAt, res.fullAt)
 	vs.G.Inc("dest." + p.Dest.Class)
 
 	// 1. the request a conforming server decoded
@@ -888,7 +897,8 @@ func s5Judge(p *s5Plan, srv *s5Server, res *s5Result, tr *vs.Trace, slack time.D
 
 	// 2. the result
 	destValid := p.Dest.Class == "ipv4" || p.Dest.Class == "ipv6" || p.Dest.Class == "ipv6mapped" || p.Dest.Class == "fqdn"
-	credsValid := p.Method != 2 || (len(p.User) >= 1 && len(p.User) <= 255 && len(p.Pass) <= 255)
+	// RFC 1929: ULEN and PLEN are 1..255; an empty password is latitude (either outcome)
+	credsValid := p.Method != 2 || (len(p.User) >= 1 && len(p.User) <= 255 && len(p.Pass) >= 1 && len(p.Pass) <= 255)
 	scriptValid := p.Fault == ""
 	mustFail := false
 	switch p.Fault {
